@@ -237,7 +237,11 @@ fn oracle_c08(ctx: &mut Ctx, v: &mut StepView) -> Option<(String, String)> {
             if budget == 0 || !asked.insert(key) { continue; }
             budget -= 1;
             // third variant: the time-travel view as of the newest frame (candidate filter get_replay_frame_ids)
-            for (no_sketch, as_of) in [(true, None), (false, None), (true, obs.frames.last().map(|f| f.id))] {
+            let nth = asked.len();
+            let mut variants: Vec<(bool, Option<u64>)> = vec![(true, None)];
+            if nth <= 4 { variants.push((false, None)); }
+            if nth <= 2 { variants.push((true, obs.frames.last().map(|f| f.id))); }
+            for (no_sketch, as_of) in variants {
                 if as_of.is_some() { v.world.branches.push("search-time-travel".into()); }
                 match search_ids(v.world, &q, uri.as_deref(), scope.as_deref(), no_sketch, as_of) {
                     Ok(ids) => {
@@ -584,7 +588,7 @@ fn main() {
     // more deletes / updates, embeddings on more puts, the bulk paths that detach the engine
     prof.w_update = 18; prof.w_delete = 16; prof.w_skip = 4; prof.w_finalize = 3; prof.emb_percent = 45; prof.wrong_dim_percent = 1;
     prof.w_reopen = 6; prof.w_crash = 4; prof.w_ticket = 0;
-    prof.n_short = if args.thorough { 70 } else { 26 };
+    prof.n_short = if args.thorough { 70 } else { 22 };
     prof.n_long = if args.thorough { 6 } else { 2 };
     prof.short_len = (12, 50);
     prof.corpus = corpus();
